@@ -100,6 +100,13 @@ theorem Good.hit (G : Good cfg R) (s : S α) (src tgt : Int) : R s (hit cfg s sr
   dsimp only
   exact G.trans (G.trans (G.thenEmit (G.silent (by rfl) (by rfl) (by rfl) (by rfl)) _ (by rfl)) (G.hpSet _ _ _ _ _)) (G.hitEnd _ _ _ _ _)
 
+theorem Good.counters (G : Good cfg R) (s : S α) (src : Int) (ts : List Int) : R s (counters cfg s src ts) := by
+  unfold Sim.counters
+  refine G.foldl _ (fun s t => ?_) _ _
+  split
+  · exact G.hit s t src
+  · exact G.refl s
+
 theorem Good.attack (G : Good cfg R) (s : S α) (src : Int) (ts : List Int) (ty : Nat) :
     R s (attack cfg s src ts ty) := by
   unfold Sim.attack
@@ -107,7 +114,7 @@ theorem Good.attack (G : Good cfg R) (s : S α) (src : Int) (ts : List Int) (ty 
   · exact G.refl s
   · refine G.trans ?_ (G.foldl _ (fun s t => G.hit s src t) _ _)
     split
-    · exact G.thenEmit (G.silent (by rfl) (by rfl) (by rfl) (by rfl)) _ (by rfl)
+    · exact G.trans (G.counters s src ts) (G.thenEmit (G.silent (by rfl) (by rfl) (by rfl) (by rfl)) _ (by rfl))
     · exact G.refl s
 
 theorem Good.endAttack (G : Good cfg R) (s : S α) : R s (endAttack s) := by
